@@ -980,6 +980,12 @@ def _check_evaluate_one(ctx, rep, ev: FuncInfo, first: bool, last: bool, quiet: 
                     if (isinstance(e.ops[0], ast.NotIn) and pol) or (isinstance(e.ops[0], ast.In) and not pol):
                         guard = set(vals)
         need = {'true', 'false', 'null'}
+        # nothing but the spelling decides whether the decoder runs: a test of the LENGTH of the constant lets long quoted strings through undecoded
+        for f, pol in facts:
+            if pol and f.replace(' ', '').startswith(f'len({p})') and any(op in f for op in ('<', '>')):
+                rep.add('penman.constant:evaluate: what reaches the decoder', ev.loc(c), 'violation',
+                        f'json.loads only runs when `{f}`: a quoted string whose written form is longer than that comes back WITH its quotes and escapes (the same call is what '
+                        f'unquotes strings), so evaluate(quote(s)) != s for a long s, while type() still says STRING')
         sub = None
         for f, pol in facts:
             try:
